@@ -347,6 +347,135 @@ def kernel_call_purity(ck, rng, f, A3, fwhm_req, tag):
                     dict(rep, points_after=np.asarray(pts).tolist()))
 
 
+# ------------------------------------------------------------------ the points array of the kernel function
+HDRA = HDR + "From NV.C18 Require Import ModelAxis.\n"
+
+
+def _layouts(rng, shp):
+    """views holding a logical array of shape shp over a flat float64 buffer whose entry p is p + 1 (distinct, decodable)"""
+    n = int(np.prod(shp))
+    nd = len(shp)
+
+    def buf(m):
+        return np.arange(1, m + 1, dtype=np.float64)
+    out = []
+    b = buf(n)
+    out.append(("C-contiguous", b, b.reshape(shp)))
+    b = buf(n)
+    out.append(("Fortran", b, b.reshape(shp[::-1]).T))
+    b = buf(2 * n + 3)
+    big = b[3:].reshape(shp[:-1] + (2 * shp[-1],))
+    out.append(("strided-slice", b, big[..., ::2]))
+    b = buf(n)
+    out.append(("reversed-first-axis", b, b.reshape(shp)[::-1]))
+    if nd >= 2:
+        perm = [int(v) for v in rng.permutation(nd)]
+        b = buf(n)
+        out.append(("transposed-axes", b, b.reshape(tuple(shp[q] for q in perm)).transpose([int(v) for v in np.argsort(perm)])))
+    return out
+
+
+def _elem_view(b, X):
+    it = b.itemsize
+    off = (X.__array_interface__["data"][0] - b.__array_interface__["data"][0]) // it
+    return [int(v) for v in X.shape], [int(v) // it for v in X.strides], int(off)
+
+
+def kernel_call_layouts(ck):
+    """filt(X, axis) / _normsq on arrays of points with 1..4 dimensions, the coordinate axis at EVERY position (given as a
+    positive and as a negative number), point axes of equal and of distinct lengths, five memory layouts; scalar and
+    per-axis fwhm.  (a) oracle: the value at every point is the independent Gaussian of that point's coordinates and the
+    result has the shape of X without the coordinate axis; (b) exact correspondence with ModelAxis.gather: which buffer
+    entries each output point reads (decoded from _normsq on integer-coded points, one coordinate at a time)."""
+    from nipy.algorithms.kernel_smooth import fwhm2sigma
+    rng = ck.rng("kernel-call-layouts")
+    filters = [("scalar fwhm 3.0, voxels (1,2,3)", 3.0, np.diag([1.0, 2.0, 3.0])),
+               ("per-axis fwhm (2,4,7)", np.array([2.0, 4.0, 7.0]), np.eye(3))]
+    terms, metas = [], []
+    for tag, fw, A3 in filters:
+        f, _ = mk(aff4(A3), (5, 5, 5), fw)
+        fv = np.asarray(fwhm2sigma(np.asarray(fw, float)), float)
+        fv = np.ones(3) * fv if fv.shape == () else fv
+        sig = np.asarray(fw, float) / SQRT8LN2
+        for nd in (1, 2, 3, 4):
+            lens = [("equal-lengths", (3,) * (nd - 1))]
+            if nd >= 3:
+                lens.append(("distinct-lengths", (2, 3, 4)[:nd - 1]))
+            if nd == 2:
+                lens.append(("distinct-lengths", (5,)))
+            for a in range(nd):
+                for axis in sorted({a, a - nd}):
+                    for lname, pl in lens:
+                        shp = tuple(pl[:a]) + (3,) + tuple(pl[a:])
+                        cls = "point-list-ndim<=2" if nd <= 2 else "grid-shaped-ndim>=3"
+                        pos = "coordinate-axis-first" if a == 0 else "coordinate-axis-not-first"
+                        vals = rng.integers(-6, 7, shp) / 2.0
+                        P = np.moveaxis(vals, a, -1)
+                        u = ((P / sig) ** 2).sum(-1) / 2
+                        want = np.where(u <= 15, np.exp(-np.minimum(u, 15)), 0.0)
+                        for layout, b, X in _layouts(rng, shp):
+                            ck.count(("kcall-layout", tag, nd, a, axis, lname, layout), bucket="kernel-call-layout/%s/%s" % (cls, layout))
+                            shape, strides, off = _elem_view(b, X)
+                            # (a) value oracle on float points held in the same layout
+                            bf = np.zeros_like(b)
+                            Xf = np.lib.stride_tricks.as_strided(bf[off:], shape=X.shape, strides=X.strides)
+                            Xf[...] = vals
+                            rep = {"filter": tag, "fwhm": np.asarray(fw).tolist(), "points_shape": list(shp), "axis": axis, "layout": layout,
+                                   "element_strides": strides, "offset": off, "points": vals.tolist(),
+                                   "call": "filt(points, axis) with points of the given shape held in the given memory layout"}
+                            try:
+                                got = np.asarray(f(Xf, axis=axis), dtype=float)
+                            except Exception as e:  # noqa
+                                ck.fail("kernel-call/raises/%s" % cls, "filt(points %s, axis=%d) raised %s: %s" % (shp, axis, type(e).__name__, e), rep)
+                                continue
+                            if got.shape != want.shape:
+                                ck.fail("kernel-call/result-shape/%s/%s" % (cls, pos),
+                                        "filt(points of shape %s, axis=%d) has shape %s, expected the points' shape without the coordinate axis %s"
+                                        % (shp, axis, got.shape, want.shape), dict(rep, got_shape=list(got.shape)))
+                            elif not np.allclose(got, want, rtol=0, atol=1e-12):
+                                ck.fail("kernel-call/values-at-wrong-points/%s/%s" % (cls, pos),
+                                        "filt(points of shape %s, axis=%d, %s): max deviation %.3g from the Gaussian of each point's own coordinates"
+                                        % (shp, axis, layout, float(np.abs(got - want).max())), dict(rep, got=got.tolist(), expected=want.tolist()))
+                            # (b) which entries are read: integer-coded points, one coordinate at a time
+                            obs, oshape, bad = None, None, None
+                            try:
+                                cols = []
+                                for c in range(3):
+                                    bc = np.zeros_like(b)
+                                    Xc = np.lib.stride_tricks.as_strided(bc[off:], shape=X.shape, strides=X.strides)
+                                    sel = (slice(None),) * a + (c,)
+                                    Xc[sel] = X[sel]
+                                    D = np.asarray(f._normsq(Xc, axis))
+                                    tab = {float(v): m for m, v in enumerate((np.arange(len(b) + 1, dtype=np.float64) / fv[c]) ** 2)}
+                                    dec = [tab.get(float(v)) for v in D.reshape(-1)]
+                                    if any(m is None or m == 0 for m in dec):
+                                        bad = "coordinate %d: _normsq value is not (entry / sigma[%d])**2 of any single entry" % (c, c)
+                                        break
+                                    cols.append([m - 1 for m in dec])
+                                    oshape = [int(v) for v in D.shape]
+                                if bad is None:
+                                    obs = [list(t) for t in zip(*cols)]
+                            except Exception as e:  # noqa
+                                bad = "_normsq raised %s: %s" % (type(e).__name__, e)
+                            rep2 = dict(rep, points="buffer entry p holds p + 1", observed_entries=obs, observed_shape=oshape)
+                            if bad is not None:
+                                ck.fail("model-vs-impl/kernel-call-gather/undecodable/%s" % cls, bad, rep2)
+                                continue
+                            terms.append("andb (zlist_eqb (out_shape %s (norm_axis %s %s)) %s) (zmat_eqb (gather %s %s %s (norm_axis %s %s)) %s)"
+                                         % (czl(shape), cz(nd), cz(axis), czl(oshape), czl(shape), czl(strides), cz(off), cz(nd), cz(axis),
+                                            clist([czl(r) for r in obs])))
+                            metas.append((cls, pos, shp, axis, layout, rep2))
+    if ck.build.ok and terms:
+        oks = ck.coq_bools(HDRA, terms)
+        ck.cov["traces_validated_against_impl"] += len(terms)
+        for ok, (cls, pos, shp, axis, layout, rep2) in zip(oks, metas):
+            if not ok:
+                ck.fail("model-vs-impl/kernel-call-gather/%s/%s" % (cls, pos),
+                        "_normsq(points of shape %s, axis=%d, %s) reads other buffer entries / returns another shape than the rolled view of the model"
+                        % (shp, axis, layout), rep2)
+    ck.section("kernel_call_layouts", cases=len(metas), coq_terms=len(terms))
+
+
 def kernel_class(c):
     if all(k == 1 for k in c.k):
         return "single-voxel-kernel"
@@ -1078,7 +1207,7 @@ def run(ck):
     import time
     tm = {"coq_build+overlay": round(time.time() - ck.t0, 1)}
     try:
-        for fn in (conversion_purity, resels, per_axis_width, impulses, oracles, geometry_and_values):      # smallest inputs first
+        for fn in (conversion_purity, kernel_call_layouts, resels, per_axis_width, impulses, oracles, geometry_and_values):      # smallest inputs first
             t0 = time.time()
             fn(ck)
             tm[fn.__name__] = round(time.time() - t0, 1)
